@@ -39,19 +39,20 @@ func newHalf() *half {
 }
 
 type Conn struct {
-	Name      string
-	r, w      *half
-	Message   bool // one Write is delivered by exactly one Read
-	Hold      bool // message mode: writes stay in flight until Deliver() hands them to the peer's reader
-	Segment   bool // stream mode: each Read returns a symbolic count in 1..min(len(p), available)
-	MaxChunks int  // number of Reads that may return a short count (later Reads return all that is available)
-	chunks    int
-	Writes    [][]byte // copies of every Write on this end
-	Closed    bool
-	CloseCnt  int
-	FailWrite int // the k-th Write (1-based) on this end fails without sending anything; 0 = never
-	nWrites   int
-	ReadBytes int
+	Name       string
+	r, w       *half
+	Message    bool // one Write is delivered by exactly one Read
+	Hold       bool // message mode: writes stay in flight until Deliver() hands them to the peer's reader
+	Segment    bool // stream mode: each Read returns a symbolic count in 1..min(len(p), available)
+	MaxChunks  int  // number of Reads that may return a short count (later Reads return all that is available)
+	chunks     int
+	Writes     [][]byte // copies of every Write on this end
+	Closed     bool
+	CloseCnt   int
+	StallWrite bool // Write blocks (back-pressure) until Unstall, Close or Reset
+	FailWrite  int  // the k-th Write (1-based) on this end fails without sending anything; 0 = never
+	nWrites    int
+	ReadBytes  int
 	// deadlines are recorded, not enforced (the model has no clock): a harness can assert that none is left armed
 	WriteClock    []int64 // virtual-clock instant of every Write on this end
 	ReadDeadline  time.Time
@@ -119,6 +120,9 @@ func (c *Conn) Write(p []byte) (int, error) {
 	h.mu.Lock()
 	defer h.mu.Unlock()
 	c.nWrites++
+	for c.StallWrite && !c.Closed && !h.broken && !h.closed {
+		h.cond.Wait() // a full socket buffer: the writer is held until the harness lets the connection drain
+	}
 	if c.Closed {
 		return 0, ErrClosed
 	}
@@ -301,3 +305,12 @@ func (c *LenConn) RemoteAddr() net.Addr               { return Addr{} }
 func (c *LenConn) SetDeadline(t time.Time) error      { return nil }
 func (c *LenConn) SetReadDeadline(t time.Time) error  { return nil }
 func (c *LenConn) SetWriteDeadline(t time.Time) error { return nil }
+
+// Unstall releases writers held by StallWrite.
+func (c *Conn) Unstall() {
+	h := c.w
+	h.mu.Lock()
+	c.StallWrite = false
+	h.cond.Broadcast()
+	h.mu.Unlock()
+}
